@@ -480,6 +480,7 @@ func emitCases(run *emit.Run, script []Op, outs [][]stepOut, envs []twinEnv) {
 			if strings.HasPrefix(o.Obs, "UNSTABLE") {
 				run.Violate("C08:unstable-within-process:"+op.id(), fmt.Sprintf("operation %s gives different answers on the same input inside one process: %s", op.id(), o.Obs),
 					map[string]any{"history": []Op{op}, "env": e, "output": o})
+				continue
 			}
 			switch op.Kind {
 			case "status":
